@@ -75,7 +75,8 @@ class C17(Check):
                   'bytes in thorough). The python oracle states RESULTS only; counter, state words and buffer are private and '
                   'compared with the model only. A 32-bit `size`, a 32-bit `count << 3` or a 32-bit byte counter therefore give a '
                   'FAILING INPUT in the thorough tier only (a single call or a message of >= 2^29 / 2^32 bytes costs minutes under '
-                  'ASan); in the quick tier they are seen by the WHITE-BOX stream `counter`: op setcount overwrites the private member '
+                  'ASan); a 32-bit `size` of one call is not seen by the quick tier at all, the two counter slips are seen there by the '
+                  'WHITE-BOX stream `counter`: op setcount overwrites the private member '
                   'Sha256::count (through `#define private public` - the one place where this harness WRITES private state, an '
                   'explicit exception to FRAMEWORK 7) with values around 2^29 ... 2^64 directly before the last update()/finalize(), '
                   'and the digest, the counter, the state words and the buffer are compared with the model run from the same '
@@ -104,7 +105,8 @@ class C17(Check):
                    'input bytes are in 0..255 (wf_bytes)',
                    'FIPS 180-4 / RFC 2104 transcription in coq/Sha/ShaSpec.v (guarded by known-answer Examples)',
                    'messages >= 2^37 bytes: the code\'s finalize() is tied to the model only from a poked counter (white-box op setcount), not end-to-end',
-                   'a 32-bit size/counter slip is reported with a failing input in the thorough tier only (quick: white-box correspondence)']
+                   'a 32-bit size/counter slip is reported with a failing input in the thorough tier only (quick: the counter slips as '
+                   'white-box correspondence, a 32-bit size of a single call not at all)']
 
     def gen_tables(self):
         return [tables.gen_sha()]
